@@ -77,7 +77,7 @@ fn main() {
     let step_ns: Vec<i64> = (0..steps).map(|_| match rng.gen_range(0..6) { 0 => refresh_ns / 3, 1 => refresh_ns / 2, 2 => refresh_ns, 3 => refresh_ns + refresh_ns / 4, 4 => 0, _ => 2 * refresh_ns }).collect();
     let (inf_ping, inf_cons) = verif::rpc_inflight();
     let log = Arc::new(EventLog::new());
-    log.emit(json!({"e": "header", "burst": burst, "refresh": refresh_ns, "hold": hold_ns, "mode": mode, "inflight": {"ping": inf_ping, "consensus": inf_cons}}));
+    log.emit(json!({"e": "header", "burst": burst, "refresh": refresh_ns, "hold": hold_ns, "mode": mode, "tight": mode == "raw" || mode == "rawlate", "inflight": {"ping": inf_ping, "consensus": inf_cons}}));
     let mut rep = Report::default();
     let rt = tokio::runtime::Builder::new_current_thread().enable_all().build().unwrap();
     let c = Committee::new(&[1, 1, 1, 1], seed);
@@ -96,7 +96,7 @@ fn main() {
     let r = catch(move || {
         let step_ns = step_ns2;
         rt.block_on(async move {
-            let hs = if mode2 == "raw" { client_handshake(&msg).await } else { vec![] };
+            let hs = if mode2 == "raw" || mode2 == "rawlate" { client_handshake(&msg).await } else { vec![] };
             let _ = &hs;
             let clock = ctx::ManualClock::new();
             let root = ctx::test_root(&clock);
@@ -114,6 +114,7 @@ fn main() {
                     Ok(())
                 });
                 let mut _keep = None;
+                let mut late: Option<Vec<u8>> = None;
                 if mode2 == "hammer" {
                     let m = msg.clone();
                     let done = completed2.clone();
@@ -175,11 +176,22 @@ fn main() {
                             bytes.extend(header("CLOSE", false, id));
                         }
                     }
-                    pipe::release(&ba, &bytes);
+                    if mode2 != "rawlate" {
+                        pipe::release(&ba, &bytes);
+                    } else {
+                        late = Some(bytes);
+                    }
                     _keep = Some(eb); // never reads, never closes
                 }
                 for st in 0..steps {
                     settle(&[&ab, &ba], &rlog2).await;
+                    // rawlate: the peer stays silent for the first third of the run (the node's streams wait for its OPENs), then says everything at once
+                    if st == steps / 3 {
+                        if let Some(b) = late.take() {
+                            pipe::release(&ba, &b);
+                            settle(&[&ab, &ba], &rlog2).await;
+                        }
+                    }
                     clock.advance(time::Duration::nanoseconds(step_ns[st as usize]));
                 }
                 settle(&[&ab, &ba], &rlog2).await;
